@@ -1,23 +1,16 @@
 """Seeded mutations for X10 (same record format as selftest/mutations_x08.py).
 
-    /venv/bin/python -m selftest.mutations_x10 [id ...] [--thorough] [--raw]
+    /venv/bin/python -m selftest.mutations_x10 [id ...] [--thorough]
 
-Every mutant is applied to a scratch copy of /repo/src under /tmp (removed afterwards) and counts
-as caught when the quick check exits 1 with at least one VIOLATION signature OTHER than the
-findings of the unchanged tree (see notes/X10.md):
-
-    *:draw|check:rejects-valid:method-none      draw(method=None) raises TypeError although documented
-    kitty:draw:z_index-malformed-in-output      draw(z_index=True) writes the control key `z=True`
-
-So that these findings cannot hide a missed mutant, every scratch copy first gets BASELINE_FIX (None
-accepted for `method`; the z-index written as an integer); the id `baseline` runs the check on that
-copy alone and must exit 0.  Patterns of BASELINE_FIX that are gone (because /repo has meanwhile
-been repaired) are skipped.  `--raw` applies the mutants to the unchanged tree instead.
+Every mutant is applied to a scratch copy of /repo/src under /tmp (removed afterwards) and counts as
+caught when the quick check exits 1 with at least one VIOLATION signature.  The unchanged tree exits 0
+(id `baseline`): finding B of notes/X10.md (`draw(z_index=True)` wrote the control key `z=True`) was
+repaired in /repo by f386f57; its revert is the mutant `x10-z-index-bool-not-coerced`.  Mutants with
+`expect_exit=0` are legitimate changes the check must tolerate (named deviations D2, D4).
 """
 
 from __future__ import annotations
 
-import fnmatch
 import os
 import shutil
 import subprocess
@@ -25,21 +18,10 @@ import sys
 from pathlib import Path
 
 VERIF = Path(__file__).resolve().parent.parent
-KNOWN = ["*:*:rejects-valid:method-none", "kitty:draw:z_index-malformed-in-output"]
-
 _TYPE_OLD = "                lambda x: isinstance(x, str),\n                \"Render method must be a string\",\n"
 _TYPE_NEW = "                lambda x: x is None or isinstance(x, str),\n                \"Render method must be a string\",\n"
 _VAL_OLD = "                lambda x: x.lower() in __class__._render_methods,\n"
 _VAL_NEW = "                lambda x: x is None or x.lower() in __class__._render_methods,\n"
-BASELINE_FIX = [
-    dict(file="image/kitty.py", old=_TYPE_OLD, new=_TYPE_NEW),
-    dict(file="image/kitty.py", old=_VAL_OLD, new=_VAL_NEW),
-    dict(file="image/iterm2.py", old=_TYPE_OLD, new=_TYPE_NEW),
-    dict(file="image/iterm2.py", old=_VAL_OLD, new=_VAL_NEW),
-    dict(file="image/kitty.py",
-         old="        control_data = ControlData(f=format, s=width, c=r_width, z=z_index)\n",
-         new="        control_data = ControlData(f=format, s=width, c=r_width, z=int(z_index))\n"),
-]
 
 CHECK_TAIL = "            if value == default:\n                del style_args[name]\n\n        return style_args\n"
 DRAW_CHECK = "                style_args = self._check_style_args(style)\n"
@@ -108,9 +90,16 @@ MUTATIONS = {
     ),
     "x10-kitty-method-case-sensitive": dict(
         file="image/kitty.py",
-        old=_VAL_NEW,
-        new="                lambda x: x is None or x in __class__._render_methods,\n",
-        needs_baseline=True,
+        old=_VAL_OLD,
+        new="                lambda x: x in __class__._render_methods,\n",
+    ),
+    "x10-kitty-method-none-accepted": dict(
+        # D5 the other way round: the code follows the docstring ("None | str") against its own test-suite.
+        # The spec pins the tested behaviour, so this alarms; flip StyleArgsCore!MethodNoneRefused if it is ever wanted
+        file="image/kitty.py",
+        old=_TYPE_OLD,
+        new=_TYPE_NEW,
+        more=[dict(file="image/kitty.py", old=_VAL_OLD, new=_VAL_NEW)],
     ),
     "x10-kitty-accepts-anim": dict(
         file="image/kitty.py",
@@ -263,40 +252,28 @@ MUTATIONS = {
         new="        image_it._animator = image_it._animate(img, alpha, fmt, {})\n",
     ),
     "x10-z-index-bool-not-coerced": dict(
-        # revert of BASELINE_FIX (finding B): must show its signature again
+        # revert of f386f57 (finding B): draw(z_index=True) writes `z=True` again
         file="image/kitty.py",
-        old=BASELINE_FIX[4]["new"],
-        new=BASELINE_FIX[4]["old"],
-        needs_baseline=True,
-        known_ok=True,
+        old="        control_data = ControlData(f=format, s=width, c=r_width, z=int(z_index))\n",
+        new="        control_data = ControlData(f=format, s=width, c=r_width, z=z_index)\n",
     ),
 }
 
 
-def _apply_edit(root: Path, e: dict, mid: str, optional: bool = False) -> bool:
+def _apply_edit(root: Path, e: dict, mid: str) -> None:
     f = root / "src" / "term_image" / e["file"]
     text = f.read_text()
     if text.count(e["old"]) != 1:
-        if optional:
-            return False
         shutil.rmtree(root, ignore_errors=True)
         raise SystemExit(f"{mid}: pattern occurs {text.count(e['old'])} times in {e['file']}")
     f.write_text(text.replace(e["old"], e["new"]))
-    return True
 
 
-def apply(mid: str, m: dict, raw: bool) -> Path | None:
+def apply(mid: str, m: dict) -> Path:
     root = Path(f"/tmp/verif-selftest-{mid}")
     shutil.rmtree(root, ignore_errors=True)
     root.mkdir(parents=True)
     subprocess.run(["rsync", "-a", "/repo/src", str(root) + "/"], check=True)
-    if not raw:
-        for e in BASELINE_FIX:
-            _apply_edit(root, e, mid, optional=True)
-    elif m.get("needs_baseline"):
-        print(f"MUT {mid} X10 SKIPPED (--raw: it edits the baseline repair)", flush=True)
-        shutil.rmtree(root, ignore_errors=True)
-        return None
     edits = list(m["edits"]) if "edits" in m else [m] + list(m.get("more", []))
     for e in edits:
         _apply_edit(root, e, mid)
@@ -306,11 +283,9 @@ def apply(mid: str, m: dict, raw: bool) -> Path | None:
     return root
 
 
-def run(mid: str, tier: str = "quick", raw: bool = False) -> bool:
+def run(mid: str, tier: str = "quick") -> bool:
     m = MUTATIONS[mid]
-    root = apply(mid, m, raw)
-    if root is None:
-        return True
+    root = apply(mid, m)
     try:
         env = dict(os.environ, VERIF_REPO=str(root))
         p = subprocess.run([str(VERIF / "check"), "X10", "--tier", tier], env=env, cwd=VERIF,
@@ -319,13 +294,9 @@ def run(mid: str, tier: str = "quick", raw: bool = False) -> bool:
         shutil.rmtree(root, ignore_errors=True)
     sigs = sorted({l.strip()[len("signature: "):] for l in p.stdout.splitlines() if l.strip().startswith("signature:")})
     want = m.get("expect_exit", 1)
-    own = [s for s in sigs if m.get("known_ok") or not any(fnmatch.fnmatchcase(s, k) for k in KNOWN)]
-    if raw and want == 0:
-        ok = p.returncode in (0, 1) and not own
-    else:
-        ok = p.returncode == want and (want == 0 or bool(own))
+    ok = p.returncode == want and (want == 0 or bool(sigs))
     status = ("as expected" if want == 0 else "caught") if ok else ("MACHINERY" if p.returncode == 2 else "MISSED")
-    print(f"MUT {mid} X10 exit={p.returncode} {status} {own if want else sigs}", flush=True)
+    print(f"MUT {mid} X10 exit={p.returncode} {status} {sigs}", flush=True)
     if p.returncode == 2 or (want == 0 and not ok):
         print("\n".join(p.stdout.splitlines()[-15:]))
     return ok
@@ -334,9 +305,8 @@ def run(mid: str, tier: str = "quick", raw: bool = False) -> bool:
 def main() -> int:
     args = [a for a in sys.argv[1:] if not a.startswith("--")]
     tier = "thorough" if "--thorough" in sys.argv else "quick"
-    raw = "--raw" in sys.argv
     ids = args or list(MUTATIONS)
-    bad = [m for m in ids if not run(m, tier, raw)]
+    bad = [m for m in ids if not run(m, tier)]
     print(f"{len(ids) - len(bad)}/{len(ids)} as expected" + (f"; not: {bad}" if bad else ""))
     return 1 if bad else 0
 
